@@ -111,7 +111,7 @@ check("C07", "referrers responses list exactly the manifests with that subject",
       "limits from one descriptor to unlimited; every listing (plain, filtered, repeated so that the page cache answers) is followed along its Link chain and compared field by field.",
       "Trusted: the model; page-size arithmetic re-computed with encoding/json over the same field set. Collections run under a retain-everything policy (GC effects on listings are C05/C06).",
       "DESIGN.md §3 C07",
-      [R("^TestC07$", 12000, 150000, steps=30)])
+      [R("^TestC07$", 20000, 150000, steps=30)])
 
 check("C16", "repositories isolated; storage access stays inside the root", "exploration",
       "rapid state machine on a vfs-instrumented build: per-repository models + file-system path log + sentinel tree outside the root",
